@@ -45,8 +45,12 @@ pub fn run(prop: &str, tier: Tier, seed: i64, replay: Option<&str>) -> i32 {
             }
             ck.corpus_stage();
             ck.ladder_stage();
-            if prop == "C02" {
+            if matches!(prop, "C02" | "C16") {
                 history_stage(&mut ck);
+            }
+            if matches!(prop, "C01" | "C10") {
+                let (a, r) = crate::hist::explore_hold(prop, tier);
+                ck.add_stage(a, r);
             }
             // (the serde monitor is ten times as expensive per string: ASCII only in C16's quick tier)
             ck.scalar_position_stage(prop == "C16" && tier == Tier::Quick);
@@ -87,6 +91,9 @@ pub fn run(prop: &str, tier: Tier, seed: i64, replay: Option<&str>) -> i32 {
             ck.add_stage(a, r);
             ck.lens_stage(plans_for(prop, tier));
             ck.ladder_stage();
+            let (a, r) = crate::hist::explore_hold(prop, tier);
+            ck.add_stage(a, r);
+            history_stage(&mut ck);
             builder_stages(&mut ck, false);
         },
         "C12" => {
@@ -121,6 +128,7 @@ pub fn run(prop: &str, tier: Tier, seed: i64, replay: Option<&str>) -> i32 {
             ck.add_stage(a, r);
             ck.lens_stage(plans_for(prop, tier));
             ck.ladder_stage();
+            history_stage(&mut ck);
         },
         #[cfg(feature = "typed")]
         "C15" => {
@@ -472,6 +480,7 @@ pub fn replay_case(prop: &'static str, case: &Value) -> Option<Vec<Violation>> {
         "hashorder" => return crate::hashorder::replay(case),
         "spell" => return crate::engine_b::replay(prop, monitors_for(prop), case),
         "history" => return crate::hist::replay(prop, case),
+        "history-hold" => return crate::hist::replay_hold(prop, case),
         "pool-pair" => return crate::pools::replay_pair(case),
         "transcript" => {
             let (a, _) = crate::transcript::compare(Tier::Quick, case["chunk"].as_str());
